@@ -122,7 +122,7 @@ int cp_bbs_ver(g1_t s, const uint8_t *msg, size_t len, int hash, const g2_t q,
 	g2_null(g);
 	gt_null(e);
 
-	if (!g1_is_valid(s)) {
+	if (!g1_is_valid(s) || !g2_is_valid(q)) {
 		return result;
 	}
 
